@@ -147,9 +147,10 @@ def collect(rep, res, trace):
     for m in res["mismatches"]:
         shard, line, ep, op = m[0], m[1], m[2], m[3]
         outcome = m[4] if len(m) > 4 else "-"
-        ev = episode_lines(shard, ep)
         rep.violation("mismatch|%s|%s" % (op, outcome),
-                      {"episode": ep, "rejected_op": op, "events": [json.loads(x) for x in ev][:60]},
+                      lambda shard=shard, ep=ep, op=op: {
+                          "episode": ep, "rejected_op": op,
+                          "events": [json.loads(x) for x in episode_lines(shard, ep)][:60]},
                       "real SharedString diverged from SharedString.tla at %s (%s) in %s" % (op, outcome, ep))
 
 
